@@ -430,8 +430,10 @@ func verifModelBinaryWrite(w io.Writer, order binary.ByteOrder, data any) error 
 //@ ensures err == nil && postingsOffset & FSTValEncodingMask == FSTValEncoding1Hit ==> rv.docNum1Hit == postingsOffset & mask31Bits && rv.normBits1Hit == (postingsOffset >> 31) & mask31Bits [C06,C07,C08,C09]
 //@ ensures err == nil && postingsOffset & FSTValEncodingMask != FSTValEncoding1Hit ==> rv.normBits1Hit == 0 && rv.docNum1Hit == 0 [C07,C08]
 //@ ensures err == nil && postingsOffset & FSTValEncodingMask != FSTValEncoding1Hit ==> rv.postings != nil [C07,C08]
-//@ requires rv.postings != nil ==> bmSet(rv.postings) == sEmpty() [C02,C08]
-//@ ensures err == nil ==> plDocsIs(rv, docsAt(row(d.sb.mem), off(d.sb.mem), postingsOffset)) [C02,C08]
+// (a single-hit value with norm bits 0 is never written - finding F2 - and is read as "general encoding, no bitmap read":
+//  the list then shows whatever its bitmap held before; it is excluded here and handled by the callers that cleared it)
+//@ ensures err == nil && !(postingsOffset & FSTValEncodingMask == FSTValEncoding1Hit && (postingsOffset >> 31) & mask31Bits == 0) ==> plDocsIs(rv, docsAt(row(d.sb.mem), off(d.sb.mem), postingsOffset)) [C02,C08]
+//@ ensures err == nil && postingsOffset & FSTValEncodingMask == FSTValEncoding1Hit ==> rv.postings == old(rv.postings) && (old(rv.postings) != nil ==> bmSet(rv.postings) == old(bmSet(rv.postings))) [C02,C08]
 //@ ensures rv.except == old(rv.except) && rv.sb == old(rv.sb)
 //@ ensures rv.postings == old(rv.postings) || (old(rv.postings) == nil && fresh(rv.postings))
 //@ modifies PostingsList.*[rv], alloc, new ghost bmSet, ghost bmSet[rv.postings], elems(any)
@@ -536,7 +538,7 @@ func lemma1HitDiscriminator(docNum, normBits uint64) {
 //@ clean invertedIndexOpaque.FieldsInv nil
 //@ clean invertedIndexOpaque.Dicts len0
 //@ clean invertedIndexOpaque.DictKeys len0
-//@ clean invertedIndexOpaque.IncludeDocValues len0
+//@ clean invertedIndexOpaque.IncludeDocValues capzero
 //@ clean invertedIndexOpaque.Postings len0
 //@ clean invertedIndexOpaque.FreqNorms len0
 //@ clean invertedIndexOpaque.freqNormsBacking len0
@@ -557,6 +559,11 @@ func lemma1HitDiscriminator(docNum, normBits uint64) {
 //@ func (*invertedIndexOpaque).Reset returns (err)
 //@ thin
 //@ tags [C10]
+// the doc-values flags are re-exposed by re-slicing up to the capacity: every cell of the capacity must be false
+// (cells beyond the current length are false by the builder's invariant: flags are only set inside the length)
+//@ wf requires forall j int :: {row(io.IncludeDocValues)[off(io.IncludeDocValues) + j]} len(io.IncludeDocValues) <= j && j < cap(io.IncludeDocValues) ==> !row(io.IncludeDocValues)[off(io.IncludeDocValues) + j]
+//@ loop 3 invariant io.IncludeDocValues == old(io.IncludeDocValues) && 0 <= $k && $k <= len(io.IncludeDocValues) [C03,C10]
+//@ loop 3 invariant forall j int :: {row(io.IncludeDocValues)[off(io.IncludeDocValues) + j]} (0 <= j && j < $k) || (len(io.IncludeDocValues) <= j && j < cap(io.IncludeDocValues)) ==> !row(io.IncludeDocValues)[off(io.IncludeDocValues) + j] [C03,C10]
 //@ ensures clean(io)
 //@ modifies invertedIndexOpaque.*[io], ghost bmSet, elems(*), interimFreqNorm.*, interimLoc.*
 //@ end
@@ -1115,7 +1122,7 @@ func lemmaUvLenRange(a []byte, o int) {}
 //@ end
 
 // representation invariant of the chunked int coder: one length slot per chunk of the doc-number range
-//@ pred capZero(c) = forall j int :: len(c.chunkLens) <= j && j < cap(c.chunkLens) ==> row(c.chunkLens)[off(c.chunkLens) + j] == 0
+//@ pred capZero(c) = forall j int :: {row(c.chunkLens)[off(c.chunkLens) + j]} len(c.chunkLens) <= j && j < cap(c.chunkLens) ==> row(c.chunkLens)[off(c.chunkLens) + j] == 0
 //@ pred lensZero(c) = forall j int :: 0 <= j && j < len(c.chunkLens) ==> c.chunkLens[j] == 0
 //@ pred coderOK(c) = c != nil && c.chunkSize >= 1 && len(c.chunkLens) >= 1 && base(c.chunkLens) != nil && len(c.chunkBuf.buf) >= c.chunkBuf.off && c.chunkBuf.off >= 0 && capZero(c) && coderMaxDoc(c) >= 0 && len(c.chunkLens) == coderMaxDoc(c) / int(c.chunkSize) + 1
 
@@ -1184,7 +1191,10 @@ func lemmaUvLenRange(a []byte, o int) {}
 //@ wf requires coderOK(c) && c.currChunk < uint64(len(c.chunkLens)) && int(docNum) <= coderMaxDoc(c)
 //@ wf requires c.bytesWritten <= 0x3fffffffffffffff && len(vals) <= 0x0fffffff
 //@ requires coderSized(c) [C01,C06]
-//@ ensures err == nil && coderOK(c) && c.chunkSize == old(c.chunkSize) [C01]
+//@ ensures err == nil && c.chunkSize == old(c.chunkSize) [C01]
+//@ ensures c != nil && c.chunkSize >= 1 && len(c.chunkLens) >= 1 && base(c.chunkLens) != nil && len(c.chunkBuf.buf) >= c.chunkBuf.off && c.chunkBuf.off >= 0 && coderMaxDoc(c) >= 0 && len(c.chunkLens) == coderMaxDoc(c) / int(c.chunkSize) + 1 [C01]
+//@ ensures docNum / c.chunkSize == old(c.currChunk) ==> capZero(c) [C01]
+//@ ensures docNum / c.chunkSize != old(c.currChunk) ==> capZero(c) [C01]
 //@ ensures c.currChunk == docNum / c.chunkSize [C01,C09]
 //@ ensures len(c.chunkLens) == old(len(c.chunkLens)) && base(c.chunkLens) == old(base(c.chunkLens)) && off(c.chunkLens) == old(off(c.chunkLens)) && cap(c.chunkLens) == old(cap(c.chunkLens))
 //@ ensures docNum / c.chunkSize == old(c.currChunk) ==> len(c.chunkBuf.buf) - c.chunkBuf.off == old(len(c.chunkBuf.buf) - c.chunkBuf.off) + uvTotal(row(vals), off(vals), len(vals)) [C01,C09]
@@ -1192,7 +1202,8 @@ func lemmaUvLenRange(a []byte, o int) {}
 //@ ensures docNum / c.chunkSize != old(c.currChunk) ==> len(c.chunkBuf.buf) - c.chunkBuf.off == uvTotal(row(vals), off(vals), len(vals)) [C01,C09]
 //@ ensures docNum / c.chunkSize != old(c.currChunk) ==> int(c.chunkLens[int(old(c.currChunk))]) == old(len(c.chunkBuf.buf) - c.chunkBuf.off) && len(c.final) == old(len(c.final)) + old(len(c.chunkBuf.buf) - c.chunkBuf.off) [C01,C09]
 //@ ensures docNum / c.chunkSize != old(c.currChunk) ==> (forall j int :: 0 <= j && j < len(c.chunkLens) && j != int(old(c.currChunk)) ==> c.chunkLens[j] == old(c.chunkLens[j])) [C01]
-//@ loop 1 invariant 0 <= $k && $k <= len(vals) && coderOK(c) && len(c.buf) >= 10
+//@ loop 1 invariant 0 <= $k && $k <= len(vals) && len(c.buf) >= 10
+//@ loop 1 invariant c != nil && c.chunkSize >= 1 && len(c.chunkLens) >= 1 && base(c.chunkLens) != nil && len(c.chunkBuf.buf) >= c.chunkBuf.off && c.chunkBuf.off >= 0 && coderMaxDoc(c) >= 0 && len(c.chunkLens) == coderMaxDoc(c) / int(c.chunkSize) + 1
 //@ loop 1 invariant c.currChunk == docNum / c.chunkSize && c.chunkSize == old(c.chunkSize) && c.chunkLens == old(c.chunkLens) && c.final == entry(c.final)
 //@ loop 1 invariant len(c.chunkBuf.buf) - c.chunkBuf.off == entry(len(c.chunkBuf.buf) - c.chunkBuf.off) + uvTotal(row(vals), off(vals), $k)
 //@ end
@@ -1522,6 +1533,11 @@ func lemmaSynonymCodeRoundTrip(synonymID, docID uint32) {
 //@ requires di != nil && s != nil
 //@ wf requires chunkNumber < uint64(len(di.chunkOffsets))
 //@ ensures err == nil ==> di.curChunkNum == chunkNumber && len(di.uncompressed) == 0 [C03]
+// the header of the loaded chunk has exactly as many entries as the chunk announces (none of a chunk loaded before
+// into the same reader), each entry decoded from this chunk
+//@ local ensures err == nil && start >= end ==> len(di.curChunkHeader) == 0 [C03]
+//@ local ensures err == nil && start < end ==> len(di.curChunkHeader) == int(numDocs) [C03]
+//@ loop 1 invariant len(di.curChunkHeader) == int(numDocs) && 0 <= i [C03]
 //@ ensures di.chunkOffsets == old(di.chunkOffsets) && di.dvDataLoc == old(di.dvDataLoc) && di.field == old(di.field)
 //@ modifies docValueReader.*[di], alloc, new MetaData.*, elems(*)
 //@ end
@@ -1618,6 +1634,23 @@ func lemmaSynonymCodeRoundTrip(synonymID, docID uint32) {
 //@ loop 1 invariant s.mem == old(s.mem) && row(s.mem) == old(row(s.mem)) && idDict.fst == entry(idDict.fst)
 //@ loop 1 invariant postingsList != nil && postingsList.postings != rv && 0 <= $k && $k <= len(ids)
 //@ loop 1 invariant bmSet(rv) == idsUnion(idDict.fst, row(s.mem), off(s.mem), row(ids), off(ids), $k) [C02]
+//@ end
+
+// dictionary enumeration: every entry carries its own term and the true number of documents of that term,
+// whatever the entries visited before (the iterator decodes each entry into one scratch postings list)
+//@ func (*DictionaryIterator).Next returns (e, err)
+//@ thin
+//@ tags [C08]
+//@ uses setCardSingle
+//@ requires i != nil
+//@ wf requires i.itr != nil ==> i.d != nil && i.d.sb != nil
+//@ wf requires addr(i.tmp) != emptyPostingsList
+//@ requires i.tmp.except == nil [C08]
+//@ ensures old(i.err) != nil && old(i.err) != vellum.ErrIteratorDone ==> e == nil && err == old(i.err) [C08]
+//@ ensures (old(i.err) == nil || old(i.err) == vellum.ErrIteratorDone) && (i.itr == nil || old(i.err) == vellum.ErrIteratorDone) ==> e == nil && err == nil [C08]
+//@ ensures e != nil ==> err == nil && i.entry.Term == old(vitKey(i.itr)) [C08]
+//@ ensures e != nil && !i.omitCount && !(uint64(old(vitVal(i.itr))) & FSTValEncodingMask == FSTValEncoding1Hit && (uint64(old(vitVal(i.itr))) >> 31) & mask31Bits == 0) ==> int(i.entry.Count) == sCard(docsAt(row(i.d.sb.mem), off(i.d.sb.mem), uint64(old(vitVal(i.itr))))) [C08]
+//@ ensures i.tmp.except == nil
 //@ end
 
 //@ func (*Dictionary).Contains returns (ok, err)
